@@ -327,6 +327,11 @@ fn all_leaves() -> Vec<FE> {
     v.push(FE::NoneF);
     v
 }
+/// all leaves but seven near-duplicates (28 leaves)
+fn wide_leaves() -> Vec<FE> {
+    let drop = [FE::Level(2), FE::Level(4), FE::Targets(1), FE::Env(1), FE::Env(7), FE::Fn(0), FE::Dyn(4)];
+    all_leaves().into_iter().filter(|l| !drop.contains(l)).collect()
+}
 fn core_leaves() -> Vec<FE> {
     vec![
         FE::Level(3), FE::Level(0), FE::Targets(2), FE::Env(2), FE::Env(6), FE::Env(9),
